@@ -118,7 +118,11 @@ func (w *World) observe(tx *wire.MsgTx, phase string) (*simReq, *txInfo) {
 		return nil, nil
 	}
 	if q == nil {
-		w.harness("tx %v spends wallet inputs only", tx.TxHash())
+		// none of the inputs any request asked for is in this transaction
+		sort.Strings(info.labels)
+		ghost := &simReq{minIdx: 1 << 29, key: "R?"}
+		w.violate(ghost, "inputs-mismatch", "%s at height %d: transaction [%s] spends wallet coins only: none of the inputs a bump request asked to sweep",
+			phase, w.height, strings.Join(info.labels, ","))
 		return nil, nil
 	}
 	sort.Strings(info.labels)
@@ -371,8 +375,19 @@ func (w *World) onResult(q *simReq, res *sweep.BumpResult) {
 				ceilLo = m
 			}
 			if q.startRate <= ceilLo {
-				w.violate(q, "budget-overshoot", "request failed with %v although its starting rate %d sat/kw is within the ceiling %d sat/kw (budget %d sat, weight %d): the ramp overshot budget-over-size",
-					res.Err, q.startRate, ceilLo, q.budgetSum, a.wNorm)
+				// Structural signature: is the overshoot explained by
+				// budget-over-size having been rounded to the NEAREST sat/kw
+				// (so that rate x size lands one satoshi above the budget)?
+				sig := ""
+				for wt := a.wAct; wt <= a.wNorm; wt++ {
+					r := (q.budgetSum*1000*2 + wt) / (2 * wt) // round half up
+					if r <= w.cfg.maxRateKW() && r*wt/1000 > q.budgetSum {
+						sig = "budget-over-size-rounded-to-nearest"
+						break
+					}
+				}
+				w.violateSig(q, "budget-overshoot", sig, "request failed at height %d with %v although its starting rate %d sat/kw is within the ceiling %d sat/kw (budget %d sat, weight %d..%d): the ramp overshot budget-over-size instead of offering the ceiling [%s]",
+					w.height, res.Err, q.startRate, ceilLo, q.budgetSum, a.wAct, a.wNorm, sig)
 			}
 		}
 	}
